@@ -37,6 +37,26 @@ Theorem C08_lookup_falls_back : forall lower svc name,
 Proof. exact lookup_falls_back. Qed.
 Print Assumptions C08_lookup_falls_back.
 
+(* the error slot of a published function: its LAST result whenever that result's type implements error - the
+   interface type `error` or a concrete type (a pointer-to-struct type such as QuotaError, a named slice or string
+   type ..., nillable or not) - and then it is not a result; "no error" is the zero value of that type (98e4ceb) *)
+Theorem C08_error_slot_is_any_type_implementing_error : forall id name ctx params velem outs r,
+  implements_error r = true ->
+  m_err (make_method id name ctx params velem (outs ++ [r])) = true /\
+  m_results (make_method id name ctx params velem (outs ++ [r])) = map rdesc_type outs.
+Proof. exact make_method_error_slot. Qed.
+Print Assumptions C08_error_slot_is_any_type_implementing_error.
+
+(* calls in flight together (on one connection or many, with or without a worker pool) do not share per-call
+   state: the answer to request i of a batch is the answer to that request alone *)
+Theorem C08_calls_are_independent :
+  forall fuel hp lower io_dec io_dec_hdrs impl stack dec_err_text so svc rh reqs i req,
+  nth_error reqs i = Some req ->
+  nth_error (serve_all fuel hp lower io_dec io_dec_hdrs impl stack dec_err_text so svc rh reqs) i =
+  Some (handle fuel hp lower io_dec io_dec_hdrs impl stack dec_err_text so svc rh req).
+Proof. intros. eapply serve_all_independent; eassumption. Qed.
+Print Assumptions C08_calls_are_independent.
+
 (* ---- exactly once, the right function, the right arguments ------------------------------------------- *)
 
 (* For every conforming call (right number of arguments; or the target is the missing-method handler) and
@@ -237,6 +257,12 @@ Example panic_nonvacuous :
          ref_client so1 svc1 [] [TNamed 0] (m_name m_and) [GBool true; GBool true] [] =
   (RErr ab false, [(7, [GBool true; GBool true])]).
 Proof. vm_compute. reflexivity. Qed.
+
+(* func(n int) (int, pointer to QuotaError): one result, and an error slot *)
+Example concrete_error_slot :
+  let m := make_method 3 ab false [TNamed 0] None [RPlain (TNamed 0); RConcreteError (TNamed 1)] in
+  m_err m = true /\ m_results m = [TNamed 0].
+Proof. split; reflexivity. Qed.
 
 (* the arity guard is met by typical calls and excluded ones exist *)
 Example arity_examples :
